@@ -9,7 +9,7 @@ import json, os, random, re, collections, concurrent.futures as cf
 import vf
 
 SCAN_KINDS = ("Scan", "MapScan", "SliceMap")
-DRIFT_KINDS = {"request-after-failed-fetch", "error-not-identified", "rows-short-before-error"}
+DRIFT_KINDS = {"request-after-failed-fetch", "error-not-identified", "rows-short-before-error", "query-page-state-changed"}
 
 
 def _cases_from_tlc(ctx, tier):
@@ -60,13 +60,16 @@ def run(ctx):
 
     # ---- 1. model pass: every interleaving of consumer, prefetch goroutine and node, every bounded scenario
     dev = bool(os.environ.get("VF_C15_DEV"))   # development only: small model pass (the evidence says so)
-    mc = vf.tlc_must_pass(ctx, "Paging", "MC_Paging_live.cfg" if dev else "MC_Paging_full.cfg", workers=4 if dev else None,
+    mc = vf.tlc_must_pass(ctx, "MC_Paging", "MC_Paging_live.cfg" if dev else "MC_Paging_full.cfg", workers=4 if dev else None,
                           timeout=900, heap="6g", deadlock=False, name="mc_full")
-    live = vf.tlc_must_pass(ctx, "Paging", "MC_Paging_live.cfg" if quick else "MC_Paging_livefull.cfg", workers=4 if dev else None,
+    live = vf.tlc_must_pass(ctx, "MC_Paging", "MC_Paging_live.cfg" if quick else "MC_Paging_livefull.cfg", workers=4 if dev else None,
                             timeout=1500, heap="6g", deadlock=False, name="mc_live")
+    # the same Query value executed again (after complete / abandoned iterations): safety + termination
+    rex = vf.tlc_must_pass(ctx, "MC_Paging", "MC_Paging_reexec.cfg", workers=4 if dev else None, timeout=1500, heap="6g",
+                           deadlock=False, name="mc_reexec")
     if dev:
         ctx.notes.append("VF_C15_DEV set: the exhaustive model pass ran with the small bounds only")
-    states, trans = mc.distinct + live.distinct, mc.generated + live.generated
+    states, trans = mc.distinct + live.distinct + rex.distinct, mc.generated + live.generated + rex.generated
     gen_states = mon_states = 0
 
     # ---- 2. cases with the property's expectations, from TLC
@@ -80,7 +83,10 @@ def run(ctx):
     runs = []
     for c in cases:
         runs.append(dict(id=c["id"], sched=0))
-    racy = [c for c in cases if _can_race(c)]
+    racy = [c for c in cases if _can_race(c) and len(c["plan"]) == 1]
+    multi = [c for c in cases if len(c["plan"]) > 1]
+    # re-executed Query values also under racing schedules (a prefetch of an abandoned iterator under way)
+    racy += [c for c in multi if _can_race(c)]
     nrace = min(len(racy) * 3, 1500 if quick else 30000) if replay_cases is None else len(racy) * 6
     if racy:
         pick = [racy[rng.randrange(len(racy))] for _ in range(nrace)] if nrace < len(racy) * 3 else racy * (nrace // len(racy))
@@ -89,12 +95,14 @@ def run(ctx):
     for k, r in enumerate(runs):
         r["run"] = k + 1
         c = byid[r["id"]]
-        for f in ("pages", "q", "kind", "fail", "mode", "start", "prep", "skip", "size"):
+        for f in ("pages", "q", "kind", "fail", "mode", "start", "prep", "skip", "size", "plan", "rebind"):
             r[f] = c[f]
-    byrun = {r["run"]: r for r in runs}
+    byrun = {r["run"]: r for r in runs}      # job number -> job
+    nexec = sum(len(r["plan"]) for r in runs)
     rp = os.path.join(ctx.tmp, "c15_runs.ndjson")
     vf.write_ndjson(rp, runs)
-    ctx.log("cases=%d (can race: %d) runs=%d" % (len(cases), len(racy), len(runs)))
+    ctx.log("cases=%d (re-executing one Query value: %d; can race: %d) jobs=%d iterations=%d" % (
+        len(cases), len(multi), len(racy), len(runs), nexec))
 
     # ---- 3. the real driver
     binary = vf.build_gotest(ctx, ".", ["common", "c15"])
@@ -106,11 +114,11 @@ def run(ctx):
     summ = json.loads(m.group(1))
     ctx.log("driver: %s" % summ)
     results = vf.read_ndjson(os.path.join(ctx.tmp, "c15_results.ndjson"))
-    if len(results) != len(runs):
-        raise vf.Inconclusive("%d results for %d runs" % (len(results), len(runs)))
+    if len(results) != nexec:
+        raise vf.Inconclusive("%d results for %d iterations" % (len(results), nexec))
     env = [r for r in results if r["env"]]
     if env:
-        if len(env) > max(3, len(runs) // 200) or any(r["env"].startswith("hang") for r in env):
+        if len(env) > max(3, nexec // 200) or any(r["env"].startswith("hang") for r in env):
             raise vf.Inconclusive("%d runs were disturbed by the environment, e.g. run %d: %s" % (
                 len(env), env[0]["run"], env[0]["env"][:1500]))
         ctx.notes.append("%d runs disturbed by the environment (timeouts), not counted" % len(env))
@@ -156,50 +164,73 @@ def run(ctx):
     viol = collections.OrderedDict()
     drift = collections.OrderedDict()
 
-    def descr(run):
-        return "%s consumer, %s paging, pages %s, prefetch %s/4, failing page %s%s, %s%s%s" % (
+    def descr(run, ex=1):
+        d = "%s consumer, %s paging, pages %s, prefetch %s/4, failing page %s%s, %s%s%s" % (
             run["kind"], run["mode"], run["pages"], run["q"], run["fail"] or "none",
             (", caller state = token %d" % run["start"]) if run["mode"] == "manual" else "",
             {"query": "QUERY", "exec0": "EXECUTE without values", "exec2": "EXECUTE with 2 values"}[run["prep"]],
             ", skip-metadata" if run["skip"] else "", ", racing schedule %d" % run["sched"] if run["sched"] else "")
+        if len(run["plan"]) > 1:
+            d += ", execution %d of the same Query value (plan %s: rows taken before Close, -1 = all%s)" % (
+                ex, run["plan"], "; re-Bind before each re-execution" if run["rebind"] else "")
+        return d
 
     def short(l):
         return str(l) if len(l) <= 14 else "%s ... (%d in all)" % (str(l[:14])[:-1], len(l))
 
+    def is_prefix(a, b):
+        return len(a) <= len(b) and b[:len(a)] == a
+
     mismatches = 0
+    unclassified = 0
     for res in results:
         if res["env"]:
             continue
-        run = byrun[res["run"]]
+        run = byrun[res["job"]]
         exp = byid[run["id"]]["exp"]
+        ee = exp["execs"][res["exec"] - 1]
+        rows = [list(x) for x in res["rows"]]
         diffs = []
-        if res["reqs"] != exp["reqs"]:
+        if ee["ended"] == "abandoned":
+            # the caller stops early as planned: the rows so far, and no request that is out of line
+            if not is_prefix(res["reqs"], exp["reqs"]):
+                diffs.append("requests carried paging states %s, the property demands a prefix of %s" % (short(res["reqs"]), exp["reqs"]))
+        elif res["reqs"] != exp["reqs"]:
             diffs.append("requests carried paging states %s, the property demands %s" % (short(res["reqs"]), exp["reqs"]))
         if len(set(res["reqf"])) > 1:
             diffs.append("the page requests differ in more than the paging state: %s" % sorted(set(res["reqf"])))
-        if [list(x) for x in res["rows"]] != exp["delivered"]:
-            diffs.append("rows %s, the property demands %s" % (short(res["rows"]), exp["delivered"]))
-        if res["ended"] != exp["ended"]:
-            diffs.append("ended %s (%s), the property demands %s" % (res["ended"], res["errmsg"] or "no error", exp["ended"]))
-        elif res["err"] != exp["err"]:
+        if rows != ee["rows"]:
+            diffs.append("rows %s, the property demands %s" % (short(rows), ee["rows"]))
+        if res["ended"] != ee["ended"]:
+            diffs.append("ended %s (%s), the property demands %s" % (res["ended"], res["errmsg"] or "no error", ee["ended"]))
+        elif res["ended"] == "error" and res["err"] != exp["err"]:
             diffs.append("ended with %r, the failed fetch was that of page %d" % (res["errmsg"], exp["err"]))
         if run["mode"] == "manual" and res["ended"] == "normal" and res["exposed"] != exp["exposed"]:
             diffs.append("PageState() shows token %d, the page carried %d" % (res["exposed"], exp["exposed"]))
-        fs = mon.get(res["run"], [])
+        if res["qtok"] not in (-2, run["start"]):
+            diffs.append("the execution left paging state token %d in the caller's Query (the caller had put in %d)" % (
+                res["qtok"], run["start"]))
+        fs = [f for f in mon.get(res["run"], [])]
         if diffs:
             mismatches += 1
         if diffs and not [f for f in fs if f["kind"] != "not-explained-by-the-paging-machine"]:
-            raise vf.Inconclusive("run %d (%s) differs from the generator's expectation (%s) but Trace_Paging has no verdict "
-                                  "for it: the two oracles disagree" % (res["run"], descr(run), "; ".join(diffs)))
+            # the observation differs from what TLC computed for this case although no verdict operator of the trace
+            # specification fired: still a contradiction of the TLC-computed expectation, reported as such
+            unclassified += 1
+            fs = fs + [dict(what="viol", kind="differs-from-expectation", line="-", ev="end")]
         for f in fs:
-            what = "%s at trace step %s (%s event): %s; %s" % (f["kind"], f["line"], f["ev"], descr(run), "; ".join(diffs) or "-")
+            what = "%s at trace step %s (%s event): %s; %s" % (f["kind"], f["line"], f["ev"], descr(run, res["exec"]), "; ".join(diffs) or "-")
             if f["what"] == "viol" and f["kind"] not in DRIFT_KINDS:
                 key = "%s/%s/%s" % (f["kind"], run["kind"], run["mode"])
+                if res["exec"] > 1:
+                    key += "/re-executed"
                 e = viol.setdefault(key, dict(n=0, what=what, detail=dict(case=byid[run["id"]], run=run, observed=res, finding=f)))
                 e["n"] += 1
             else:
                 e = drift.setdefault(f["kind"], dict(n=0, what=what))
                 e["n"] += 1
+    if unclassified:
+        ctx.notes.append("%d observations differed from TLC's expectation without a verdict of Trace_Paging's operators" % unclassified)
     for key, e in viol.items():
         ctx.violation(key, "%s [%d run(s)]" % (e["what"], e["n"]), e["detail"])
     for kind, e in drift.items():
@@ -207,20 +238,22 @@ def run(ctx):
     ctx.log("observations differing from TLC's expectation: %d; violation classes: %d; drift classes: %d" % (
         mismatches, len(viol), len(drift)))
 
-    sample = next((r for r in results if not r["env"] and len(r["reqs"]) >= 3 and byrun[r["run"]]["sched"]), results[len(results) // 2])
-    srun = byrun[sample["run"]]
+    sample = next((r for r in results if not r["env"] and len(r["reqs"]) >= 2 and r["exec"] >= 2), results[len(results) // 2])
+    srun = byrun[sample["job"]]
     ctx.cov = dict(
         states=states, transitions=trans,
         traces_validated_against_impl=cnt["traces"],
         exhaustive=not dev,
-        cases_from_tlc=len(cases), runs=len(runs), racing_runs=len(runs) - len(cases),
+        cases_from_tlc=len(cases), cases_reexecuting_one_query=len(multi), jobs=len(runs), runs=nexec,
+        racing_jobs=len(runs) - len(cases),
         runs_matching_expectation=good - mismatches, trace_steps=cnt["steps"], traces_conforming=cnt["conforming"],
         generator_states=gen_states, trace_spec_states=mon_states,
         model_configs=[dict(cfg="MC_Paging_live (VF_C15_DEV)" if dev else "MC_Paging_full", distinct=mc.distinct, generated=mc.generated, depth=mc.depth),
-                       dict(cfg="MC_Paging_live" if quick else "MC_Paging_livefull", distinct=live.distinct, generated=live.generated)],
-        samples=[dict(case={k: srun[k] for k in ("pages", "q", "kind", "fail", "mode", "start", "prep", "skip", "size", "sched")},
+                       dict(cfg="MC_Paging_live" if quick else "MC_Paging_livefull", distinct=live.distinct, generated=live.generated),
+                       dict(cfg="MC_Paging_reexec", distinct=rex.distinct, generated=rex.generated, depth=rex.depth)],
+        samples=[dict(case={k: srun[k] for k in ("pages", "q", "kind", "fail", "mode", "start", "prep", "skip", "size", "sched", "plan", "rebind")},
                       expected=byid[srun["id"]]["exp"],
-                      observed={k: sample[k] for k in ("reqs", "rows", "ended", "err", "exposed")})],
+                      observed={k: sample[k] for k in ("exec", "reqs", "rows", "ended", "err", "exposed", "qtok")})],
     )
     ctx.assumptions += [
         "bounds: <= 4 pages, <= 3 rows per page (0 allowed anywhere), prefetch in {0, 1/4, 1/2, 1}; the quick tier replays "
